@@ -278,7 +278,20 @@ def main():
         extra_problems += mod.pre(ctx) or []
 
     # 3. harness
-    bins, herr = build_harness(binname, log, features=getattr(mod, "FEATURES", None), nightly=getattr(mod, "NIGHTLY", False))
+    multi = getattr(mod, "HARNESS_BINS", None)
+    if multi:
+        # cross-cutting property: requests are routed to the harness bins of several vocabularies
+        allbins, herr = {}, None
+        for b in multi:
+            bb, e = build_harness(b, log)
+            if bb is None:
+                herr = e
+                break
+            allbins[b] = bb
+        bins = None if herr else {"dbg": "multi", "rel": "multi"}
+    else:
+        allbins = None
+        bins, herr = build_harness(binname, log, features=getattr(mod, "FEATURES", None), nightly=getattr(mod, "NIGHTLY", False))
     driver = os.path.join(LEAN, ".lake", "build", "bin", "bnum_driver")
     if not os.path.exists(driver):
         print("internal error: bnum_driver not built\n" + "\n".join(str(x) for x in log[-3:]))
@@ -297,6 +310,7 @@ def main():
                     l = l.strip()
                     if l and not l.startswith("#"):
                         cases.append((l, "corpus"))
+        ctx["line_offset"] = len(cases)
         cases += list(mod.gen(rng, tier))
     lines = [c[0] for c in cases]
     tags = [c[1] for c in cases]
@@ -315,7 +329,19 @@ def main():
         broken.append(herr)
         R = {}
     else:
-        R = {m: run_chunked(exe, lines) for m, exe in bins.items()}
+        if allbins:
+            R = {}
+            route = [mod.ROUTE(l) for l in lines]
+            for m in ("dbg", "rel"):
+                outs = [None] * len(lines)
+                for b in allbins:
+                    idx = [i for i, r in enumerate(route) if r == b]
+                    res = run_chunked(allbins[b][m], [lines[i] for i in idx])
+                    for i, o in zip(idx, res):
+                        outs[i] = o
+                R[m] = [o if o is not None else "bad-op" for o in outs]
+        else:
+            R = {m: run_chunked(exe, lines) for m, exe in bins.items()}
     mo_sp = run_chunked(driver, lines)
     known = load_known()
     internal = []
